@@ -14,10 +14,13 @@ from vcheck import coq_bytes, coq_list
 RULE = ("fixed enumeration: string literals of syntax/filetests_test.go and syntax/printer_test.go (read as data) plus pinned "
         "witnesses, in each of bash/posix/mksh/bats/zsh where they parse; 12 fixed mutations per literal (byte edits, layout "
         "perturbation, comment injection, token insertion/splice; bash + one rotating variant, zsh on the corpus only); 1500 "
-        "grammar-generated programs per variant (not zsh). Options: quick = pairwise covering array of Indent 0..8 x 7 flags "
+        "grammar-generated programs per variant (not zsh); a systematic enumeration of ~31k small arithmetic expressions (binary "
+        "operator x operand whose leftmost leaf carries a prefix sign, also under a tighter-binding operator; postfix ++/-- on "
+        "the left) in every arithmetic context ($(( )), (( )), $[ ], slice offset/length, array subscripts, for (( ))), in bash "
+        "and posix/mksh. Options: quick = pairwise covering array of Indent 0..8 x 7 flags "
         "(+ the refused Minify+SingleLine row) with Simplify alternating, plus a seed-rotated 1/97 of all combinations on the "
         "corpus; thorough = every combination x Simplify on/off on the corpus, the covering array x on/off elsewhere. "
-        "VERIF_SEED rotates which 1/8 slice of mutations/generated programs the quick tier visits. "
+        "VERIF_SEED rotates which 1/8 slice of mutations/generated programs/arithmetic expressions the quick tier visits. "
         "non-trivial = distinct inputs that parse (counted per (input, variant)).")
 
 
